@@ -373,7 +373,12 @@ func (w *world) get(rt xdsresource.ResourceType, name string) string {
 	if p {
 		return "panic:" + msg
 	}
-	return canonGet(rt, res, err)
+	out := canonGet(rt, res, err)
+	if out == "typednil" && rt == xdsresource.EndpointsType && err == nil {
+		// an assignment without localities is stored (and served) as the explicit "no endpoints" value
+		return "val:typednil"
+	}
+	return out
 }
 
 func authErr() error { return status.Err(codes.Unauthenticated, "verif: authentication rejected") }
